@@ -129,13 +129,13 @@ DECISIVE = {
     'C08': {'corr-value', 'corr-n', 'corr-err-vs-ok', 'corr-ok-vs-err', 'corr-bytes', 'corr-size', 'prop-rt-value', 'prop-size', 'prop-deadlock',
             'corr-descmap', 'panic', 'crash', 'race'},
     'C14': {'prop-nocopy-set', 'prop-nocopy-cap', 'prop-nocopy-view', 'prop-input-alias', 'prop-memory', 'corr-value', 'panic', 'crash'},
-    'C17': {'prop-legacy', 'corr-value', 'corr-n', 'corr-err-vs-ok', 'corr-ok-vs-err', 'corr-bytes', 'corr-size', 'prop-rt-value', 'prop-size', 'panic', 'crash'},
+    'C17': {'prop-invalid-size', 'prop-invalid-enc', 'prop-invalid-dec', 'prop-valid-rejected', 'prop-legacy', 'corr-value', 'corr-n', 'corr-err-vs-ok', 'corr-ok-vs-err', 'corr-bytes', 'corr-size', 'prop-rt-value', 'prop-size', 'panic', 'crash'},
     'C18': {'prop-allocs', 'panic', 'crash'},
     'C09': {'ref-err-vs-ok', 'ref-ok-vs-err', 'ref-errfield', 'ref-errclass', 'corr-bitset', 'corr-err-vs-ok', 'corr-ok-vs-err', 'corr-errclass', 'corr-errfield', 'corr-bytes', 'panic', 'crash'},
     'C10': {'ref-value', 'corr-bytes', 'corr-value', 'corr-size', 'prop-rt-value', 'panic', 'crash'},
     'C11': {'ref-value', 'ref-err-vs-ok', 'corr-unknown', 'corr-value', 'corr-bytes', 'corr-size', 'prop-size', 'corr-hop', 'panic', 'crash'},
     'C12': {'corr-resolve', 'corr-resolve-rejected', 'corr-resolve-accepted', 'corr-bytes', 'corr-value', 'prop-rt-value', 'panic', 'crash', 'universe-mismatch'},
-    'C13': {'corr-resolve-accepted', 'prop-invalid-size', 'prop-invalid-enc', 'prop-invalid-dec', 'prop-valid-rejected', 'prop-badarg', 'panic', 'crash'},
+    'C13': {'corr-value', 'prop-rt-value', 'prop-rt-fail', 'corr-encerr', 'corr-sizepanic', 'corr-err-vs-ok', 'corr-resolve-accepted', 'prop-invalid-size', 'prop-invalid-enc', 'prop-invalid-dec', 'prop-valid-rejected', 'prop-badarg', 'panic', 'crash'},
     'C15': {'corr-errclass', 'corr-err-vs-ok', 'corr-ok-vs-err', 'panic', 'crash'},
     'C16': {'prop-short-accepted', 'prop-guard', 'prop-mutated', 'prop-repeat', 'prop-input-mutated', 'panic', 'crash'},
 }
@@ -241,9 +241,9 @@ def standard_check(prop, tier, seed, widen=False, gen=None, race=False):
     gen = gen or casegen.GENERATORS[prop]
     cs = gen(u, groups, rng, tier)
     sessions, envs = None, None
-    if isinstance(cs, dict):                  # {'sessions': [[(sx, info)]], 'envs': [...]}
+    if isinstance(cs, dict):                  # {'sessions': [[(sx, info)]], 'envs': [...], 'cases': [...]}
         sessions, envs = cs['sessions'], cs.get('envs')
-        cs = []
+        cs = cs.get('cases', [])
     elif widen and tier == 'quick':
         # a proof obligation broke: look harder for a concrete failing input
         cs += gen(u, groups, rng.fork('widen'), 'thorough')
